@@ -25,6 +25,12 @@ PROP = "C11"
 N_ROWS = 26
 
 
+# integer-typed input also with magnitudes at which SQUARES (or their sums) no longer fit the integer type itself while
+# every value and every statistic is still exact in float64: int64 around 1e9, int32 around 1e5, int16 around 1e3; int8 holds
+# the values (|v| <= 16) but not their squares.  Seeded changes C11-b, C06-e, C11-e.
+MAGS = {"float64": [1.0], "int64": [1.0, 1e8, 1e9], "int32": [1.0, 1e4], "int16": [1.0, 100.0], "int8": [1.0]}
+
+
 def values(p, halves, seed=0):
     rng = np.random.default_rng(100 + seed)
     X = rng.integers(-2, 3, size=(N_ROWS + 10, p)).astype(float)
@@ -50,7 +56,7 @@ def make_index(kind, start, n):
 
 
 def represent(V, cont, dtype, idx, cols, start=0):
-    A = V.astype(np.int64) if dtype == "int64" else V.astype(np.float64)
+    A = V.astype(np.dtype(dtype))
     n, p = A.shape
     if cont == "ndarray2d":
         return A.copy()
@@ -118,8 +124,7 @@ def replay_case(case):
     fails = []
     # integer-typed input also with LARGE magnitudes (values around 1e8, still exact in float64): integer arithmetic
     # on prefix sums must not overflow where the float path is fine
-    mags = [1.0, 1e8, 1e9] if dtype == "int64" else [1.0]
-    for mag in mags:
+    for mag in MAGS[dtype]:
         fails += _replay_one(case, values(p, halves) * mag, "" if mag == 1.0 else f"x{mag:g}")
     return fails
 
@@ -215,8 +220,8 @@ def replay_scorers(args):
     fails = []
     n_eval = 0
     for name, mk, cuts, mag in [(n_, m_, c_, 1.0) for n_, m_, c_ in scorer_cases()] + \
-            ([(n_ + f" x{mg:g}", m_, c_, mg) for mg in (1e8, 1e9) for n_, m_, c_ in scorer_cases() if "(0" not in n_ and "(1" not in n_]
-             if dtype == "int64" else []):
+            ([(n_ + f" x{mg:g}", m_, c_, mg) for mg in MAGS[dtype][1:] for n_, m_, c_ in scorer_cases() if "(0" not in n_ and "(1" not in n_]
+             if dtype != "float64" else []):
         V = values(p, halves)[:N_ROWS] * mag
         n_eval += 1
         try:
